@@ -268,9 +268,9 @@ def _must_pass_on_some(fn, wb, targets):
         p2, n2, _ = call_result_edges(fn, b)
         starts = [x for (_, x) in n2]       # is_none() == false
         if starts:
-            return fn.must_pass_from(starts, targets)
+            return fn.must_pass_from(starts, targets, removed_edges=p2)
     if pos:
-        return fn.must_pass_from([x for (_, x) in pos], targets)
+        return fn.must_pass_from([x for (_, x) in pos], targets, removed_edges=neg)
     return fn.must_pass_from(list(fn.g.get(wb, [])), targets)
 
 
